@@ -35,6 +35,17 @@ mod verif_emit {
                 i += 1;
             }
         }
+        fn varint64(&mut self, v: u64) {
+            let mut r = [0u8; 10];
+            let l = ref_enc64(v, &mut r);
+            let mut i = 0;
+            while i < 10 {
+                if i < l {
+                    self.byte(r[i]);
+                }
+                i += 1;
+            }
+        }
         fn bytes(&mut self, s: &[u8]) {
             let mut i = 0;
             while i < s.len() {
@@ -136,9 +147,9 @@ mod verif_emit {
         assert!((&mut s).serialize_str(st).is_ok());
         assert!((&mut s).serialize_bytes(&bb[..bl]).is_ok());
         let mut e = Exp::new();
-        e.varint(sl as u128);
+        e.varint64(sl as u64);
         e.bytes(&sb[..sl]);
-        e.varint(bl as u128);
+        e.varint64(bl as u64);
         e.bytes(&bb[..bl]);
         same(s, &e);
     }
@@ -153,7 +164,7 @@ mod verif_emit {
         let mut u = [0u8; 4];
         let l = c.encode_utf8(&mut u).len();
         let mut e = Exp::new();
-        e.varint(l as u128);
+        e.varint64(l as u64);
         e.bytes(&u[..l]);
         same(s, &e);
     }
@@ -173,8 +184,8 @@ mod verif_emit {
         let mut e = Exp::new();
         e.byte(0);
         e.byte(1);
-        e.varint(p as u128);
-        e.varint(q as u128);
+        e.varint64(p as u64);
+        e.varint64(q as u64);
         same(s, &e);
     }
 
@@ -184,12 +195,25 @@ mod verif_emit {
     fn emit_variants() {
         let i0: u32 = kani::any();
         let i1: u32 = kani::any();
-        let i2: u32 = kani::any();
-        let i3: u32 = kani::any();
         let p: u16 = kani::any();
         let mut s = fresh();
         assert!((&mut s).serialize_unit_variant("E", i0, "V").is_ok());
         assert!((&mut s).serialize_newtype_variant("E", i1, "V", &p).is_ok());
+        kani::cover!(i0 == u32::MAX);
+        kani::cover!(i1 == 128);
+        let mut e = Exp::new();
+        e.varint64(i0 as u64);
+        e.varint64(i1 as u64);
+        e.varint64(p as u64);
+        same(s, &e);
+    }
+    #[kani::proof]
+    #[kani::unwind(21)]
+    fn emit_variants2() {
+        let i2: u32 = kani::any();
+        let i3: u32 = kani::any();
+        let p: u16 = kani::any();
+        let mut s = fresh();
         {
             let mut t = (&mut s).serialize_tuple_variant("E", i2, "V", 2).unwrap();
             assert!(SerializeTupleVariant::serialize_field(&mut t, &p).is_ok());
@@ -200,16 +224,11 @@ mod verif_emit {
             assert!(SerializeStructVariant::serialize_field(&mut t, "field", &p).is_ok());
             assert!(SerializeStructVariant::end(t).is_ok());
         }
-        kani::cover!(i0 == u32::MAX);
-        kani::cover!(i1 == 128);
         let mut e = Exp::new();
-        e.varint(i0 as u128);
-        e.varint(i1 as u128);
-        e.varint(p as u128);
-        e.varint(i2 as u128);
-        e.varint(p as u128);
-        e.varint(i3 as u128);
-        e.varint(p as u128);
+        e.varint64(i2 as u64);
+        e.varint64(p as u64);
+        e.varint64(i3 as u64);
+        e.varint64(p as u64);
         same(s, &e);
     }
 
@@ -249,11 +268,11 @@ mod verif_emit {
             assert!(SerializeStruct::end(t).is_ok());
         }
         let mut e = Exp::new();
-        e.varint(n as u128);
-        e.varint(p as u128);
-        e.varint(m as u128);
+        e.varint64(n as u64);
+        e.varint64(p as u64);
+        e.varint64(m as u64);
         e.byte(k);
-        e.varint(p as u128);
+        e.varint64(p as u64);
         e.byte(k);
         e.byte(k);
         e.byte(k);
@@ -341,7 +360,7 @@ mod verif_emit {
         let mut s = fresh();
         assert!((&mut s).collect_str(&d).is_ok());
         let mut e = Exp::new();
-        e.varint((d.al + d.bl) as u128);
+        e.varint64((d.al + d.bl) as u64);
         e.bytes(&d.a[..d.al]);
         e.bytes(&d.b[..d.bl]);
         same(s, &e);
